@@ -255,6 +255,7 @@ package ed25519
 //@ axiom RTCLAMP [M4]: all(a, ((1<<254) <= a && a < (1<<255) && a % 8 == 0) ==> (8 * a) % L != 0)
 //@ axiom RTCOP [M4]: all(x, (8 * x) % L == 0 ==> x % L == 0)
 //@ func verifRoundTrip(seed, message, f, c, zip215)
+//@   hook
 //@   uses RTDEC, RTMODL, RTNEUT, RTLC, RTSUB, RTCLAMP, RTCOP, GDBL
 //@   requires len(seed) == 32 && (f == fPure || len(c) <= 255)
 //@   requires nonce(seed, f, bytesOf(c), len(c), bytesOf(message)) != 0
